@@ -1425,4 +1425,40 @@ theorem search_lsub (h : wfIn i = true) :
 
 end lsubfinal
 
+section lsubreach
+variable {i : Input}
+
+/-- the rows appended to `lsub` are, once each, exactly the unpivoted rows among the column's own rows and
+the pruned lists of the representatives the search finished -/
+theorem search_lsub_reach (h : wfIn i = true) :
+    ∃ st' nw, search i.env (fuelBound i) (colRows i.lsubCol) i.st0 = some st' ∧
+      nw ++ visited0 i.jcol i.repfnz =
+        dfsList (adjR i.env i.lsub) i.jcol.toNat ((rootCols i.env (colRows i.lsubCol)).map (repN i.env)) (visited0 i.jcol i.repfnz) ∧
+      (slice st'.lsub (rd i.xlsub i.jcol) st'.nextl).Nodup ∧
+      ∀ r, r ∈ slice st'.lsub (rd i.xlsub i.jcol) st'.nextl ↔
+        (0 ≤ r ∧ r < i.m ∧ rd i.perm_r r = EMPTY ∧
+          (r ∈ colRows i.lsubCol ∨ ∃ t ∈ nw, r ∈ adjRows i.env i.lsub ((t : Nat) : Int))) := by
+  have hE := wfIn_env h
+  have hR := wfIn_root h
+  obtain ⟨_, _, _, _, hmark, _, _, _⟩ := wfIn_unpack h
+  obtain ⟨st', post', hs, hR', hS, hp, hM⟩ := search_spec hE (adj := adjR i.env i.lsub) (fun s h1 h2 => adjR_eq _ _ s h1 h2)
+    (wfIn_fuel h) (colRows i.lsubCol) i.st0 _ hR (wfIn_unpack h).2.2.2.2.2.2.2
+  obtain ⟨nw, n1, _, _⟩ := hS.new
+  refine ⟨st', nw, hs, ?_, hR'.ok.app.nodup, ?_⟩
+  · rw [← n1, hp, dfsList, foldl_map]; rfl
+  · intro r
+    constructor
+    · intro hr
+      obtain ⟨a, b, c, d⟩ := hR'.ok.app.rows r hr
+      refine ⟨a, b, c, ?_⟩
+      rcases (hM nw n1 r).mp d with h0 | h0 | h0
+      · obtain ⟨k, rfl⟩ := Int.eq_ofNat_of_zero_le a
+        exact absurd h0 (hmark k b)
+      · exact Or.inl h0
+      · exact Or.inr h0
+    · rintro ⟨a, b, c, d⟩
+      exact hR'.ma r a b ((hM nw n1 r).mpr (Or.inr d)) c
+
+end lsubreach
+
 end Slu.ColDfs
